@@ -106,7 +106,8 @@ def make_case(seed: int, stream: int):
             if got:
                 return got + (kinds[stream],)
     wmc = stream % 3 == 2
-    gen, ent, enc, info = cfggen.gen_shell_case(rng, want_multiclient=wmc, hostile_text=True)
+    gen, ent, enc, info = cfggen.gen_shell_case(rng, want_multiclient=wmc, hostile_text=True,
+                                                mc_shape=stream // 3)
     return gen, ent, enc, info, 'random-mc' if wmc else 'random'
 
 
@@ -270,7 +271,7 @@ def main(tier: str) -> int:
     if not cxxlab.tools_available():
         raise common.Inconclusive('g++ / clang++-14 not available')
     run = common.Run(PROP, tier, level='exploration')
-    n = 12 if tier == 'quick' else 120
+    n = 14 if tier == 'quick' else 120
     scratch = run.scratch()
     run.require('tu_alone', 'tu_twice', 'tu_orders', 'programs_linked', 'programs_run',
                 'tu_two_shells', 'programs_coexist', 'kind_global-component', 'kind_random-mc')
